@@ -10,7 +10,7 @@ import numpy as np
 from hypothesis import strategies as st
 
 from vlib import env
-from vlib.api import Sub, oracle
+from vlib.api import run_pinned, Sub, oracle
 
 RULE = (
     "history = setup in configuration order (create 1-3 real and 1-4 complex variables, fix, tie [real tie, full complex tie, shared radius], bound) followed by 1-25 "
@@ -539,6 +539,7 @@ def run_bound(ctx):
 
 
 SUBCHECKS = [
+    Sub("pinned", run_pinned, shards=(1, 1), budget=(100, 300)),
     Sub("history", run_hist, shards=(6, 12), budget=(200, 2400), weight=2),
     Sub("history_fit", run_hist_fit, shards=(4, 8), budget=(200, 2400), weight=2),
     Sub("bound", run_bound, shards=(4, 6), budget=(200, 1800), weight=2),
